@@ -40,6 +40,9 @@ func Progress(desc func() string) {
 	progressDesc.Store(desc)
 }
 
+// UlimitVKB, when > 0, runs workers under `ulimit -v` (address space, KiB).
+var UlimitVKB int
+
 // HangSeconds is the no-progress watchdog limit (~10^5 x the expected cost of a case).
 var HangSeconds = 120
 
@@ -126,6 +129,9 @@ func runOne(kind string, i int, j interface{}, timeout time.Duration, extraEnv [
 	ctx, cancel := context.WithTimeout(context.Background(), timeout)
 	defer cancel()
 	cmd := exec.CommandContext(ctx, os.Args[0])
+	if UlimitVKB > 0 {
+		cmd = exec.CommandContext(ctx, "/bin/sh", "-c", fmt.Sprintf("ulimit -v %d && exec \"$0\"", UlimitVKB), os.Args[0])
+	}
 	cmd.Env = append(os.Environ(), "VERIF_WORKER="+kind, "GOMAXPROCS=1", "GOTRACEBACK=single")
 	cmd.Env = append(cmd.Env, extraEnv...)
 	cmd.Stdin = bytes.NewReader(in)
